@@ -324,6 +324,11 @@ POWER_FAULTS = {
     'power_nan': lambda rows: [r if i != 1 else r[:5] + ['nan'] + r[6:] for i, r in enumerate(rows)],
     'power_text': lambda rows: [r if i != 1 else r[:5] + ['abc'] + r[6:] for i, r in enumerate(rows)],
     'power_extra_pin': lambda rows: rows + [rows[0][:4] + ['99'] + rows[0][5:]],
+    # item numbers with a hole (pins 1..6 and 8 of a 7-pin bundle), the same in every axial region
+    'power_item_numbering_hole': lambda rows: [r[:4] + ['8'] + r[5:] if (r[0], r[1], r[4]) == ('1', '1', '7') else r
+                                               for r in rows],
+    'power_item_numbered_from_zero': lambda rows: [r[:4] + [str(int(r[4]) - 1)] + r[5:] if (r[0], r[1]) == ('1', '1') else r
+                                                   for r in rows],
     'power_empty_file': lambda rows: [],
 }
 _B = dict(n_ring=2, pitch=0.0022, dpin=0.0018, wire=0.0002, n_duct=2)
